@@ -70,6 +70,8 @@ def cases(rng, tier, shard, nshards, phase):
                     r = rng.sample(names, kk) + [""] * (nr - kk)
                     if rng.random() < 0.15 and nr >= 3:
                         r[rng.randrange(1, nr)] = ""       # interior blank
+                    if rng.random() < 0.08 and len(layout) >= 2:
+                        r = [""] * nr                      # a voter who ranked nobody: every rank cell empty
                 base.append(r)
             rows = []
             for i, r in enumerate(base):
